@@ -43,6 +43,7 @@ type CrashRun struct {
 	backupDir     string
 	backupMgr     *server.BackupManager
 	atBackup      *Model // model when the last completed backup run started
+	locationForeign bool // the backup location has been taken over by another store
 	walEpochStart int    // WAL offsets are only comparable for ops after the last clean restart
 	deletedIDs    map[uint32]bool
 	seenDsIDs     map[uint32]string // internal dataset id -> "name#incarnation"
@@ -435,6 +436,12 @@ func RunCrashScenario(sc *Scenario) (vd *Verdict) {
 				fail(v, i)
 				return
 			}
+		case "takeover":
+			mgmt = true
+			if v := r.takeoverBackupLocation(); v != nil {
+				fail(v, i)
+				return
+			}
 		case "foreignBackup":
 			mgmt = true
 			if v := r.foreignBackup(); v != nil {
@@ -823,6 +830,19 @@ func (r *CrashRun) runBackup() (v *Violation) {
 		r.Stats["backup_managers"]++
 	}
 	start := r.M.Clone()
+	if r.locationForeign {
+		// the location now carries another store's id: this hub must leave it alone (it stops by panicking)
+		before := dirFingerprint(r.backupDir)
+		func() {
+			defer func() { _ = recover() }()
+			r.backupMgr.Run()
+		}()
+		r.Stats["backup_runs_against_foreign_location"]++
+		if after := dirFingerprint(r.backupDir); after != before {
+			return viol("C20", "backup", "overwrote-foreign-backup", "the backup location was taken over by another store after this hub's last run, and the next run changed it:\nbefore %s\nafter  %s", before, after)
+		}
+		return nil
+	}
 	defer func() {
 		if rec := recover(); rec != nil {
 			v = viol("C20", "backup", "backup-run-panicked", "BackupManager.Run panicked: %v", rec)
@@ -838,7 +858,7 @@ func (r *CrashRun) runBackup() (v *Violation) {
 // restoreCheck loads the backup location into an empty store and compares it with the source
 // hub as it was when the last completed backup run started.
 func (r *CrashRun) restoreCheck() *Violation {
-	if r.atBackup == nil {
+	if r.atBackup == nil || r.locationForeign {
 		return nil
 	}
 	dir := NewDir("restore")
@@ -891,7 +911,7 @@ func dirFingerprint(dir string) string {
 
 // foreignBackup points a second, different store at the backup location: it must not be written.
 func (r *CrashRun) foreignBackup() (v *Violation) {
-	if r.backupDir == "" || r.atBackup == nil {
+	if r.backupDir == "" || r.atBackup == nil || r.locationForeign {
 		return nil
 	}
 	time.Sleep(time.Nanosecond)
@@ -920,5 +940,42 @@ func (r *CrashRun) foreignBackup() (v *Violation) {
 	if after := dirFingerprint(r.backupDir); after != before {
 		return viol("C20", "backup", "foreign-store-overwrote-backup", "a store with a different storage id ran its backup against this location and changed it:\nbefore %s\nafter  %s", before, after)
 	}
+	return nil
+}
+
+// takeoverBackupLocation replaces the content of the backup location by the backup of another
+// store (as happens when two hubs are pointed at one bucket, or a volume is re-used).
+func (r *CrashRun) takeoverBackupLocation() *Violation {
+	if r.backupDir == "" || r.atBackup == nil {
+		return nil
+	}
+	time.Sleep(time.Nanosecond)
+	other, err := OpenHub(NewDir("otherhub"), r.Sc.Knobs)
+	if err != nil {
+		return viol("C20", "harness", "invalid", "%v", err)
+	}
+	defer func() {
+		other.Close()
+		os.RemoveAll(other.Dir)
+	}()
+	if ds, err := other.Dsm.CreateDataset("foreign", nil); err == nil && ds != nil {
+		_ = ds.StoreEntities(other.Entities([]Ent{{"id": MkE + "foreign", "props": map[string]any{}, "refs": map[string]any{}}}))
+	}
+	tmp := NewDir("otherbackup")
+	os.RemoveAll(tmp)
+	other.Env.BackupLocation = tmp
+	other.Env.BackupSchedule = "*/5 * * * *"
+	bm, err := server.VerifNewBackupManager(other.Store, other.Env)
+	if err != nil {
+		return viol("C20", "harness", "invalid", "%v", err)
+	}
+	bm.Run()
+	os.RemoveAll(r.backupDir)
+	if err := os.Rename(tmp, r.backupDir); err != nil {
+		return viol("C20", "harness", "invalid", "%v", err)
+	}
+	r.locationForeign = true
+	r.atBackup = nil
+	r.Stats["location_takeovers"]++
 	return nil
 }
